@@ -518,10 +518,13 @@ func (b *bigmachineExecutor) Discard(ctx context.Context, task *Task) {
 	task.state = TaskRunning
 	task.Unlock()
 	m := b.location(task)
-	if m == nil {
-		return
+	if m == nil || !m.Discard(ctx, task) {
+		// Nothing was discarded, e.g. because the task has completed but is
+		// not yet assigned to its machine: it is still complete. Leaving it
+		// in TaskRunning (without anybody running it) would block every
+		// later evaluation of the task forever.
+		task.Set(TaskOk)
 	}
-	m.Discard(ctx, task)
 }
 
 func (b *bigmachineExecutor) Eventer() eventlog.Eventer {
